@@ -25,6 +25,10 @@ pub struct Schedule {
   pub notify_lifo: bool,
   /// inject spurious condvar wake-ups (3 % of the scheduling steps)
   pub spurious: bool,
+  /// PCT (probabilistic concurrency testing): (seed, depth d, expected number of choice
+  /// points k): every thread gets a random priority, the highest-priority enabled thread
+  /// runs, and at d-1 random choice points the running thread drops to the lowest priority
+  pub pct: Option<(u64, u8, u16)>,
 }
 
 #[derive(Clone, Debug)]
@@ -140,6 +144,10 @@ struct SchedSt {
   rng: u64,
   notify_lifo: bool,
   spurious: bool,
+  pct: Option<(u64, u8, u16)>,
+  pct_prio: Vec<i64>,
+  pct_change: Vec<u32>,
+  pct_low: i64,
 }
 
 struct State {
@@ -399,6 +407,20 @@ impl State {
     let mut chosen = default;
     if let Some(&(_, idx)) = self.sched.overrides.iter().find(|(p, _)| *p == pos) {
       chosen = en[(idx as usize).min(en.len() - 1)];
+    } else if let Some((seed, _, _)) = self.sched.pct {
+      // priorities are drawn lazily, as threads appear
+      while self.sched.pct_prio.len() < self.threads.len() {
+        let t = self.sched.pct_prio.len() as u64;
+        let mut x = seed.wrapping_add(t.wrapping_mul(0x9E37_79B9));
+        self.sched.pct_prio.push(1_000 + (splitmix(&mut x) % 1_000_000) as i64);
+      }
+      if self.sched.pct_change.contains(&pos) {
+        if let Some(c) = self.cur {
+          self.sched.pct_low -= 1;
+          self.sched.pct_prio[c] = self.sched.pct_low;
+        }
+      }
+      chosen = *en.iter().max_by_key(|t| self.sched.pct_prio[**t]).unwrap();
     } else if let Some((_, pct)) = self.sched.walk {
       let r = splitmix(&mut self.sched.rng);
       if (r % 100) < pct as u64 {
@@ -908,6 +930,19 @@ where
         rng: cfg.schedule.walk.map(|w| w.0).unwrap_or(0),
         notify_lifo: cfg.schedule.notify_lifo,
         spurious: cfg.schedule.spurious,
+        pct: cfg.schedule.pct,
+        pct_prio: Vec::new(),
+        pct_change: {
+          let mut v = Vec::new();
+          if let Some((seed, d, k)) = cfg.schedule.pct {
+            let mut x = seed ^ 0xA5A5_5A5A_1234_5678;
+            for _ in 1..d.max(1) {
+              v.push((splitmix(&mut x) % (k.max(1) as u64)) as u32);
+            }
+          }
+          v
+        },
+        pct_low: 0,
       },
       choice_points: 0,
       taken: Vec::new(),
